@@ -218,6 +218,8 @@ def run(idx, rep, tier):
     # ---- every eig rule
     od = Order(idx)
     rules = res.rules_of("eig")
+    from sa.autorule import arity_obligations
+    arity_obligations(idx, rep, rules)
     if not rules:
         rep.missing_anchor("dispatched function eig")
     helper_fns = set()
